@@ -3,7 +3,7 @@
 Require Import Verif.Common.Base.
 From Coq Require Import Permutation.
 Require Import Verif.Common.Fanout.
-Require Import Verif.Model.C05 Verif.Spec.C05 Verif.Proof.C05 Verif.Proof.C05_sched Verif.Proof.C05_budget.
+Require Import Verif.Model.C05 Verif.Spec.C05 Verif.Proof.C05 Verif.Proof.C05_sched Verif.Proof.C05_budget Verif.Proof.C05_growth Verif.Proof.C05_real.
 
 (* For every n and every sequence of at most n select outcomes (any mix of complete,
    incomplete, failed; any order): if some dequeued response is complete, the middleware
@@ -155,6 +155,111 @@ Theorem C05_complete_before_budget : forall n cerr ls s i r,
 Proof. exact complete_before_budget. Qed.
 Print Assumptions C05_complete_before_budget.
 
+(* ---- growth round ---- *)
+
+(* processConcurrentCall (budget context alive): whatever the backend call returns, exactly one
+   message, never an idle iteration; an error wins over a response returned with it, (nil, nil)
+   becomes errNullResult, a response alone is delivered as it is; the worker message of the
+   schedule layer is the same thing *)
+Theorem C05_one_message_per_call : forall res,
+  process_call res <> ParentDone /\
+  (forall e, snd res = Some e -> process_call res = Fail e) /\
+  (res = (None, None) -> process_call res = Fail ENull) /\
+  (forall r, res = (Some r, None) -> process_call res = Res r) /\
+  ev_of (msg_of_call res) = process_call res.
+Proof. exact process_call_cases. Qed.
+Print Assumptions C05_one_message_per_call.
+
+Theorem C05_response_delivered_iff : forall res r,
+  process_call res = Res r <-> res = (Some r, None).
+Proof. exact process_call_res. Qed.
+Print Assumptions C05_response_delivered_iff.
+
+(* WHICH answer: for every n, every outcome vector (all seven kinds) and every arrival order,
+   the caller receives the response of the FIRST slot in arrival order whose backend call
+   returned a complete response without an error, and no error *)
+Theorem C05_which_complete : forall n kinds order i,
+  List.length (arrivals kinds order) <= n ->
+  first_complete_slot kinds order = Some i ->
+  run_scenario n kinds order None = (Some (slot_resp i true), None).
+Proof. exact which_complete. Qed.
+Print Assumptions C05_which_complete.
+
+(* ... and when no slot does: the last response and the last error in arrival order (the
+   silent attempts' DeadlineExceeded last) *)
+Theorem C05_which_otherwise : forall n kinds order,
+  List.length (events kinds order) <= n ->
+  first_complete_slot kinds order = None ->
+  run_scenario n kinds order None =
+  (last_resp (events kinds order) None, last_err (events kinds order) None).
+Proof. exact which_otherwise. Qed.
+Print Assumptions C05_which_otherwise.
+
+(* Parent context done during collection, EXACTLY: iterations consumed by ctx.Done() only use
+   up iterations.  With w = the messages dequeued within the first n iterations, the result
+   is the first complete response of w and no error, otherwise (last response of w, last
+   error of w) - (nil, nil) exactly when w has neither. *)
+Theorem C05_parent_done_exact : forall n evs,
+  let w := strip (firstn n evs) in
+  middleware n evs = middleware (List.length w) w /\
+  (complete_in w ->
+     exists pre r post, w = (pre ++ Res r :: post)%list /\
+       (forall x, In (Res x) pre -> r_complete x = false) /\ r_complete r = true /\
+       middleware n evs = (Some r, None)) /\
+  (~ complete_in w -> middleware n evs = (last_resp w None, last_err w None)).
+Proof. exact parent_done_exact. Qed.
+Print Assumptions C05_parent_done_exact.
+
+(* the harness scenario "parent cancelled after k dequeued messages": the result is the one
+   of the first k arrivals alone *)
+Theorem C05_scenario_parent_exact : forall n kinds order k,
+  let w := firstn n (firstn k (arrivals kinds order)) in
+  run_scenario n kinds order (Some k) = middleware (List.length w) w.
+Proof. exact scenario_parent_exact. Qed.
+Print Assumptions C05_scenario_parent_exact.
+
+(* schedule layer, parent context alive or not, ANY interleaving after which the collector
+   has returned: either the last dequeued message is the only complete response and it is
+   returned without error, or all n iterations were used and the result is (last response,
+   last error) of what was dequeued *)
+Theorem C05_every_schedule_exact : forall n cerr idle ls s,
+  sys_run n cerr idle (init msg n) ls = Some s -> fin msg s = true ->
+  (can_finish (got msg s) = true ->
+     exists pre r, got msg s = (pre ++ [MRes r])%list /\ can_finish pre = false /\
+                   r_complete r = true /\ outcome (got msg s) = (Some r, None)) /\
+  (can_finish (got msg s) = false ->
+     iters msg s = n /\ List.length (got msg s) <= n /\
+     outcome (got msg s) =
+       (last_resp (map ev_of (got msg s)) None, last_err (map ev_of (got msg s)) None)).
+Proof. exact every_schedule_exact. Qed.
+Print Assumptions C05_every_schedule_exact.
+
+(* the caller's own request after the n CloneRequest calls is what it was (the body reader
+   re-buffered with the full bytes) *)
+Theorem C05_caller_request_unchanged : forall n r, caller_after n r = r.
+Proof. exact caller_after_same. Qed.
+Print Assumptions C05_caller_request_unchanged.
+
+(* the oracle on the runs whose arrival order is not imposed (case kind CFree) *)
+Theorem C05_model_meets_oracle_free : forall n kinds,
+  List.length kinds = n -> 1 <= n ->
+  spec_b (produced kinds) (run_scenario n kinds (nonsilent_slots kinds) None) = true.
+Proof. exact model_meets_oracle_free. Qed.
+Print Assumptions C05_model_meets_oracle_free.
+
+(* the list-level theorems and the schedule layer speak about the same runs: every arrival
+   list the collector can consume (at most n messages, no complete response before the last
+   one, all n of them or ending with a complete one) is the dequeue sequence of a schedule of
+   the transition system after which the collector has returned, with the same result *)
+Theorem C05_arrival_list_realizable : forall n cerr idle ms,
+  List.length ms <= n ->
+  (forall pre m post, ms = (pre ++ m :: post)%list -> can_finish pre = false) ->
+  (List.length ms = n \/ can_finish ms = true) ->
+  exists ls s, sys_run n cerr idle (init msg n) ls = Some s /\ fin msg s = true /\
+               got msg s = ms /\ outcome (got msg s) = middleware n (map ev_of ms).
+Proof. exact arrival_list_realizable. Qed.
+Print Assumptions C05_arrival_list_realizable.
+
 (* ---- non-vacuity ---- *)
 Example C05_ex_wf : wf_scenario 3 [KIncomplete; KSilent; KComplete] [2; 0].
 Proof.
@@ -208,3 +313,13 @@ Example C05_ex_response_with_error :
   run_scenario 2 [KCompleteErr; KError] [0; 1] None = (None, Some (EAttempt 1)) /\
   spec_b (produced [KIncompleteErr; KComplete]) (Some (slot_resp 0 false), Some (EAttempt 0)) = false.
 Proof. vm_compute. repeat split. Qed.
+Example C05_ex_which :
+  first_complete_slot [KCompleteErr; KComplete; KIncomplete; KComplete] [2; 0; 3; 1] = Some 3 /\
+  run_scenario 4 [KCompleteErr; KComplete; KIncomplete; KComplete] [2; 0; 3; 1] None
+    = (Some (slot_resp 3 true), None).
+Proof. vm_compute. split; reflexivity. Qed.
+Example C05_ex_parent_exact :
+  run_scenario 3 [KError; KIncomplete; KComplete] [0; 1; 2] (Some 2) = (Some (slot_resp 1 false), Some (EAttempt 0)) /\
+  strip (firstn 3 (events_parent 3 [KError; KIncomplete; KComplete] [0; 1; 2] 2))
+    = [Fail (EAttempt 0); Res (slot_resp 1 false)].
+Proof. vm_compute. split; reflexivity. Qed.
